@@ -41,6 +41,19 @@ class PCounter(persistent.Persistent):
             return out
 
 
+class PCounterNA(PCounter):
+    """Resolvable counter of a class with constructor arguments (__getnewargs__): its records start with the pickle of
+    (class, args) instead of the bare class, and the object cannot be created without the arguments."""
+
+    def __new__(cls, *args):
+        if not args:
+            raise TypeError('PCounterNA.__new__ needs its arguments')
+        return PCounter.__new__(cls)
+
+    def __getnewargs__(self):
+        return ('na',)
+
+
 class PNoResolve(persistent.Persistent):
     def __init__(self, n=0):
         self.n = n
@@ -53,8 +66,11 @@ def record(obj):
     return w.serialize(obj)
 
 
+COUNTER_CLASS = ['PCounter']          # which counter class counter_record() uses (set by the C10 harness per shard)
+
+
 def counter_record(n, tag=''):
-    return record(PCounter(n, tag))
+    return record(globals()[COUNTER_CLASS[0]](n, tag))
 
 
 def state_of(data):
